@@ -49,7 +49,7 @@ class C05(CheckBase):
         self.sweep_done = 0
 
     def n_plans(self, tier):
-        return 9000 if tier == "quick" else 400000
+        return 25000 if tier == "quick" else 600000
 
     def time_budget(self, tier):
         return 170 if tier == "quick" else 1700
